@@ -170,7 +170,7 @@ func seqAccept(h *histState, impl, kind string, ood bool) func(string) bool {
 }
 
 func seqCasesOf(steps []apiStep, ood []bool, malformed bool, hk string) []run.Case {
-	hs := &histState{}
+	hs := &histState{errClassLoose: looseErrClass(steps)}
 	cases := []run.Case{{Req: seqReset, Impl: `{"ok":null}`, Accept: func(m string) bool { return m == `{"ok":null}` }}}
 	for i, st := range steps {
 		kind := "call"
